@@ -785,6 +785,15 @@ class SymEx:
         if ext in ('std::mem::drop', 'core::mem::drop') and args:
             st.events.append(('call', ext, tuple(args), line, b.nid, None))
             return ('c', '()')
+        if ext in ('std::result::Result::is_ok', 'std::result::Result::is_err') and args:
+            o = self.load(st, args[0], b)
+            if o[0] == 'aggr' and o[1] == RESULT:
+                return ('c', (o[2] == 'Ok') == ext.endswith('is_ok'))
+            d = ('discr', o)
+            want = 0 if ext.endswith('is_ok') else 1
+            if d in st.known:
+                return ('c', st.known[d] == want)
+            return ('cmp', 'eq', ('c', want), d)
         if ext == 'std::option::Option::is_some' and args:
             return self.is_some(st, self.load(st, args[0], b))
         if ext == 'std::option::Option::is_none' and args:
@@ -806,7 +815,7 @@ class SymEx:
                 return 'handled'
             st.events.append(('call', 'callback', tuple([clo] + list(cargs)), line, b.nid, None))
             return ('call', 'callback', tuple([clo] + list(cargs)))
-        if ext == 'std::iter::Iterator::for_each' and len(args) == 2 and (raw or args)[1][0] == 'closure':
+        if ext.endswith('::for_each') and ('Iterator' in ext or 'iter' in ext) and len(args) == 2 and (raw or args)[1][0] == 'closure':
             clo = (raw or args)[1]
             # zero iterations
             s0 = st.fork()
